@@ -408,3 +408,65 @@ HEAP_HEADERS["C16"] = ("From CppUVerif Require Import lib.CSem lib.CMem lib.CHea
                        "JOpen (group : Z) | JClose.\n"
                        "Section JUnit.\nVariable text_empty : Z -> Z.\n")
 HEAP_FOOTERS["C16"] = "\nEnd JUnit.\n"
+
+# ------------------------------------------------------------------ C04 (second file): MemoryLeakDetector's allocation / release / reallocation paths
+_G04D = [["evs", "list dev"], ["allocs", "list Z"], ["nodefails", "list Z"], ["inlines", "list hptr"], ["reallocs", "list Z"], ["guards", "list Z"]]
+_D = "src_det_"
+_C04D = {n: {"fn": "src_table_" + n, "method": True, "noghost": True} for n in ["retrieveNode", "getFirstLeakForAllocationStage", "getNextLeakForAllocationStage"]}
+for n in ["addNewNode", "removeNode"]:
+    _C04D[n] = {"fn": "src_table_" + n, "method": True, "writes": True, "noghost": True}
+_DM = ["storeLeakInformation", "reallocateMemoryAndLeakInformation", "invalidateMemory", "matchingAllocation", "checkForCorruption",
+       "allocateMemoryWithAccountingInformation", "reallocateMemoryWithAccountingInformation", "createMemoryLeakAccountingInformation",
+       "allocMemory", "deallocMemory", "reallocMemory", "deallocAllMemoryInCurrentAllocationStage"]
+for n in _DM:
+    _C04D[n] = {"fn": _D + n, "method": True}
+_C04D["deallocMemory"]["defaults"] = {4: "0"}          # bool allocatNodesSeperately = false (MemoryLeakDetector.h)
+_C04D.update({
+    "init": {"fn": "src_node_init", "method": True},
+    "calculateVoidPointerAlignedSize": {"fn": _D + "calculateVoidPointerAlignedSize", "method": True, "static": True},
+    "sizeLeavesRoomForAccountingInformation": {"fn": _D + "sizeLeavesRoomForAccountingInformation", "method": True, "static": True},
+    "sizeOfMemoryWithCorruptionInfo": {"fn": _D + "sizeOfMemoryWithCorruptionInfo", "method": True, "static": True},
+    "getNodeFromMemoryPointer": {"event": "DInline {0} {1} {v}", "args": [0, 1], "oracle": "inlines"},
+    "alloc_memory": {"event": "DAllocCall {r} {0} {v}", "recv": True, "args": [0], "oracle": "allocs"},
+    "free_memory": {"event": "DFreeCall {r} {0} {1}", "recv": True, "args": [0, 1], "strip_casts": True},
+    "allocMemoryLeakNode": {"alloc": True, "rec_event": "DNodeAlloc {r} {p}", "fail_event": "DNodeRefused {r}", "may_fail": "nodefails"},
+    "freeMemoryLeakNode": {"event": "DNodeFree {r} {0}", "recv": True, "args": [0], "strip_casts": True},
+    "PlatformSpecificRealloc": {"event": "DRealloc {0} {1} {v}", "args": [0, 1], "oracle": "reallocs"},
+    "PlatformSpecificMemset": {"event": "DPoison {0} {1}", "args": [0, 2]},
+    "addMemoryCorruptionInformation": {"event": "DGuardWrite {0}", "args": [0]},
+    "validMemoryCorruptionInformation": {"event": "DGuardCheck {0} {v}", "args": [0], "oracle": "guards"},
+    "hasBeenDestroyed": {"fun": "destroyed", "recv": True}, "actualAllocator": {"fun": "actual", "recv": True},
+    "isOfEqualType": {"fun": "equal_type", "recv": True, "args": [0]},
+    "reportAllocationDeallocationMismatchFailure": {"event": "DReport 2 {0}", "args": [0]},
+    "reportMemoryCorruptionFailure": {"event": "DReport 3 {0}", "args": [0]},
+    "reportDeallocateNonAllocatedMemoryFailure": {"event": "DReport 1 HNull"}})
+HEAP_RECORDS["C04D"] = HEAP_RECORDS["C04"] + [["MemoryLeakDetector", MLD]]
+_D04 = dict(calls=_C04D, enums=["MemLeakPeriod"], ghosts=_G04D, sizeof={"MemoryLeakDetectorNode": "sizeof_MemoryLeakDetectorNode"},
+            globals={"memory_corruption_buffer_size": "3"}, string_literal_default="0")
+HEAP_GROUPS["C04D"] = (
+    [dict(file=MLD, name="MemoryLeakDetectorNode::init", coq="src_node_init", **_D04)] +
+    [dict(file=MLD, name=n, coq=_D + n, **_D04) for n in ["calculateVoidPointerAlignedSize", "sizeLeavesRoomForAccountingInformation"]] +
+    [dict(file=MLD, name="MemoryLeakDetector::sizeOfMemoryWithCorruptionInfo", coq=_D + "sizeOfMemoryWithCorruptionInfo", **_D04)] +
+    [dict(file=MLD, name="MemoryLeakDetector::" + n, coq=_D + n, **_D04) for n in
+     ["storeLeakInformation", "allocateMemoryWithAccountingInformation", "reallocateMemoryWithAccountingInformation",
+      "createMemoryLeakAccountingInformation", "reallocateMemoryAndLeakInformation", "invalidateMemory", "matchingAllocation", "checkForCorruption"]] +
+    [dict(file=MLD, name="MemoryLeakDetector::allocMemory", signature="const char *, size_t, bool", coq=_D + "allocMemory", **_D04),
+     dict(file=MLD, name="MemoryLeakDetector::deallocMemory", signature="const char *, size_t, bool", coq=_D + "deallocMemory", **_D04),
+     dict(file=MLD, name="MemoryLeakDetector::reallocMemory", coq=_D + "reallocMemory", **_D04),
+     dict(file=MLD, name="MemoryLeakDetector::deallocAllMemoryInCurrentAllocationStage", coq=_D + "deallocAllMemoryInCurrentAllocationStage", **_D04)])
+HEAP_HEADERS["C04D"] = ("From CppUVerif Require Import lib.CSem lib.CMem lib.CHeap gen.Gen_HeapC04.\nLocal Open Scope Z_scope.\n"
+                        "(* translated by tools/cxx2heap.py: MemoryLeakDetector's allocMemory / deallocMemory / reallocMemory and the functions they are made of. "
+                        "A block of user memory is an opaque byte address (arithmetic on it is 64-bit address arithmetic); the table functions are the "
+                        "translated ones of gen/Gen_HeapC04.v. The outside world answers through oracle streams, every answer recorded in a ghost event: "
+                        "allocator->alloc_memory (allocs: the address or 0), allocMemoryLeakNode (nodefails: non-zero = refused; else a fresh record "
+                        "block), getNodeFromMemoryPointer = the record that lives inside the block at that address (inlines), PlatformSpecificRealloc "
+                        "(reallocs), validMemoryCorruptionInformation (guards; its byte loop is translated and proved in gen/Gen_LoopC06.v). free_memory, "
+                        "freeMemoryLeakNode, the guard write, the 0xCD poisoning and the three misuse reports (1 non-allocated, 2 mismatch, 3 corruption) "
+                        "are events. actualAllocator(), isOfEqualType() and hasBeenDestroyed() of an allocator are the Section variables actual / "
+                        "equal_type / destroyed *)\n"
+                        "Inductive dev := DAllocCall (allocator size result : Z) | DFreeCall (allocator addr size : Z) | DNodeAlloc (allocator : Z) (p : hptr) | "
+                        "DNodeRefused (allocator : Z) | DNodeFree (allocator : Z) (p : hptr) | DInline (addr size : Z) (p : hptr) | "
+                        "DRealloc (addr size result : Z) | DGuardWrite (addr : Z) | DGuardCheck (addr ok : Z) | DPoison (addr size : Z) | DReport (kind : Z) (node : hptr).\n"
+                        "Definition sizeof_MemoryLeakDetectorNode : Z := @sizeof:src/CppUTest/MemoryLeakDetector.cpp:MemoryLeakDetectorNode@.\n"
+                        "Section Detector.\nVariable actual : Z -> Z.\nVariable equal_type : Z -> Z -> Z.\nVariable destroyed : Z -> Z.\n")
+HEAP_FOOTERS["C04D"] = "\nEnd Detector.\n"
